@@ -200,7 +200,7 @@ def proj_dump(x):
                        for s in d["slots"])).strip()
 
 
-def shape_stage(ctx, res, nfonts, ntexts, as_failure=False, gen_kw=None):
+def shape_stage(ctx, res, nfonts, ntexts, as_failure=False, gen_kw=None, fontgen=None, textgen=None, pred=None, label=None):
     """whole-pipeline correspondence: synthesised left-to-right fonts shaped by the real engine (public API) and by the
     Lean pass-engine model (grdriver shape); glyph ids, associations and attachments must be identical"""
     import re
@@ -211,27 +211,36 @@ def shape_stage(ctx, res, nfonts, ntexts, as_failure=False, gen_kw=None):
     try:
         fonts, lines, mlines = [], [], []
         for i in range(nfonts):
-            data, desc = fontsynth.gen_font(r, dirn=0, **(gen_kw or {}))
+            data, desc = fontgen(r) if fontgen else fontsynth.gen_font(r, dirn=0, **(gen_kw or {}))
             p = tmp / ("f%d.ttf" % i)
             p.write_bytes(data)
             fonts.append(str(p))
             for _ in range(ntexts):
-                t = fontsynth.gen_text(r)
+                t = textgen(r) if textgen else fontsynth.gen_text(r)
                 hx = "".join("%08x" % c for c in t) or "-"
                 lines.append("F0=%d,0,f;S0=0,-1,-1,0,32,0,-1,%s;R0;D0" % (i, hx))
                 mlines.append("shape %s text=%s" % (desc["model"], hx))
         impl = lib.run_lines([exe] + fonts, lines, per_chunk=100)
         model = lib.run_lines([lib.driver_path(), "shape"], mlines, per_chunk=100) if ctx.model_ok else [None] * len(lines)
         res.harness.append("h_seg vs grdriver shape")
-        res.rules.append("shape: %d synthesised left-to-right fonts (1..3 passes, 1..5 rules per pass over 2|3|9 overlapping glyph columns, uniform pre-context 0..2, rule length 1..3, constraints on glyph attributes, actions next/insert/delete/put_copy/assoc/attach/attr_set/put_glyph) x %d texts of 0..12 characters" % (nfonts, ntexts))
+        res.rules.append(label % (nfonts, ntexts) if label else "shape: %d synthesised left-to-right fonts (1..3 passes, 1..5 rules per pass over 2|3|9 overlapping glyph columns, uniform pre-context 0..2, rule length 1..3, constraints on glyph attributes, actions next/insert/delete/put_copy/assoc/attach/attr_set/put_glyph) x %d texts of 0..12 characters" % (nfonts, ntexts))
         for l, ml, i, m in zip(lines, mlines, impl, model):
             res.evaluations += 1
             res.distinct.add(ml)
             iloop, _, ibody = i.partition(" | ") if i.startswith("loop=") else ("", "", i)
             pi = proj_dump(ibody)
             if i.startswith(("CRASH", "fault")):
-                res.failures.append({"harness": "h_seg", "mode": "shape", "line": ml, "impl": i[:300], "model": m, "why": "crash / sanitizer fault in gr_make_seg on a synthesised font", "tag": "fault"})
+                res.failures.append({"harness": "h_seg", "mode": "shape", "line": ml, "impl": i[:300], "model": m, "why": "crash / sanitizer fault (or hang) in gr_make_seg on a synthesised font", "tag": "fault",
+                                     "exe_args": [], "font_hex": open(fonts[int(l.split("=")[1].split(",")[0])], "rb").read().hex(), "api_line": l})
                 continue
+            if pred is not None:
+                d = segspec.parse_dump(ibody)
+                if d is not None:
+                    ok, why, tag = pred(d, None, {"nglyphs": fontsynth.NG, "pos_assoc": True, "synth": True})
+                    res.count("shape:pred:" + ("ok" if ok else tag))
+                    if not ok:
+                        res.failures.append({"harness": "h_seg", "mode": "shape", "line": ml, "impl": ibody[:600], "model": m, "why": why, "tag": tag, "exe_args": [], "pos_assoc": True,
+                                             "font_hex": open(fonts[int(l.split("=")[1].split(",")[0])], "rb").read().hex(), "api_line": l})
             if m is None:
                 continue
             mm = re.match(r"trie=(\S*) (loop=\S+ passes=\S+ exceeded=\S+ )?(.*)", m)
